@@ -24,6 +24,7 @@ observations made so far in the file content.
 import hashlib
 import json
 import os
+import threading
 
 from .canon import canon_text
 from .model import Crash, UserError, version_tag
@@ -277,7 +278,9 @@ def _run_call_inner(ctx, b, s, obs, op, path, fn, a, kw, catch, cmp, n0, dup, in
                 post_bf_check(ctx, path, True, None, False)
         else:
             r = b.subbuild(fn, make_func(ctx, fn), *a, **kw)
-        if not (len(ctx.log) > n0 and ctx.log[n0]['fname'] == fn and ctx.log[n0]['path'] == path):
+        me = threading.get_ident()
+        mine = [l for l in ctx.log[n0:] if l['tid'] == me]
+        if not (mine and mine[0]['fname'] == fn and mine[0]['path'] == path):
             ctx.hits += 1        # returned without calling the function: served from the cache
         if ctx.fault_call == inv and not ctx.fault_handled and ctx.mode == 'real':
             ctx.fault_handled = True
@@ -298,7 +301,8 @@ def _run_call_inner(ctx, b, s, obs, op, path, fn, a, kw, catch, cmp, n0, dup, in
             raise
         if op == 'bf' and ctx.mode == 'real':
             ctx.calls.append((path, exc_class(e)))
-            invoked = any(l['path'] == path for l in ctx.log[n0:])
+            me = threading.get_ident()
+            invoked = any(l['path'] == path and l['tid'] == me for l in ctx.log[n0:])
             if invoked and not dup:
                 post_bf_check(ctx, path, False, e, True)
         if isinstance(e, Crash) or not catch:
@@ -334,7 +338,8 @@ def make_func(ctx, fname):
         else:
             inv = 'S:%s:%s' % (fname, canon_text([list(args), kwargs]))
         ctx.log.append({'step': ctx.step, 'fname': fname, 'kind': 'F' if is_file else 'S',
-                        'path': filename, 'args': canon_text([list(args), kwargs]), 'inv': inv})
+                        'path': filename, 'args': canon_text([list(args), kwargs]), 'inv': inv,
+                        'tid': threading.get_ident()})
         if is_file and ctx.mode == 'real':
             if not (isinstance(filename, str) and os.path.isabs(filename) and os.path.normpath(filename) == filename):
                 ctx.inside_fail.append(('function received a non-absolute/non-normalised path', repr(filename)))
@@ -433,7 +438,7 @@ def _stmt_par(ctx, b, inv, fname, args, s, obs, filename):
     if ctx.mode == 'model':
         # sequential reference: task order; the first exception (by task index) propagates after all ran
         first_exc = None
-        for i in range(len(blocks)):
+        for i in (ctx.extra.get('par_order') or range(len(blocks))):
             try:
                 make_task(i)()
             except Exception as e:
